@@ -49,6 +49,17 @@ def inert_patterns(rng):
             pname = f'p{j}' if shared_names else f'p{i}{j}'
             pats.append(P(pname, flags, preds, groups, (), halt, rng.random() < 0.25))
         phens.append((f'ph{i}', pats))
+    # names that read the same once (phenomenon, pattern) are joined with a separator: ('a.b', 'c') and ('a', 'b.c')
+    if len(phens) == 2 and rng.random() < 0.5:
+        sep = rng.choice('._-')
+        (n0, p0), (n1, p1) = phens
+        first, second = ('a' + sep + 'b', 'c'), ('a', 'b' + sep + 'c')
+        if rng.random() < 0.5:
+            first, second = second, first
+        p0[0] = dict(p0[0], name=first[1])
+        p1[0] = dict(p1[0], name=second[1])
+        phens = [(first[0], p0[:1] + [q for q in p0[1:] if q['name'] != first[1]]),
+                 (second[0], p1[:1] + [q for q in p1[1:] if q['name'] != second[1]])]
     return phens
 
 
